@@ -22,8 +22,10 @@ ASSUMPTIONS = ["registered functions are FilterFunction instances with declared 
 TECHNIQUE = "Coq typing judgement (RFC 2.4.3) and range predicate evaluated on the generating AST, differential against compile() over random registries; parser-model correspondence; Coq theorem relating the model's compile-time checks to the judgement"
 LEVEL = "proof"
 LEVEL_TEXT = ("Theorem C05_sound (Props/C05.v): for every text, registry and integer range, whatever the model's compile() returns is well-typed per the RFC judgement (Spec/Types.v) and in range - an invariant "
-              "through all parser functions; C05_check_args_partial / C05_singular_partial: the parser's shallow checks are the judgement's side conditions. Completeness (every valid query is accepted) is "
-              "NOT proved: decided by differential testing over random registries and boundary integers.")
+              "through all parser functions; C05_complete_tokens: conversely, for every registry and range, every token sequence the typed token-level grammar derives (the RFC ABNF without its lexical layer, "
+              "typing rules and integer range as side conditions, parentheses included) is accepted by Parser.parse, which returns the derived query (fuel monotonicity + prefix property of the Pratt loop + "
+              "one lemma per production); C05_grammar_typed; C05_check_args_partial / C05_singular_partial. That the lexer turns grammatical TEXT into such token sequences is not a theorem: "
+              "decided by differential testing over random registries and boundary integers.")
 LEVEL_NOTE = "Trusted: Coq kernel; Spec/Types.v as a reading of the RFC; correspondence; extraction and driver."
 
 
